@@ -17,7 +17,9 @@ Min2c(x, y) == IF x < y THEN x ELSE y
 \* arity of each site (how many of a, b are meaningful)
 Arity ==
     [s \in {"str.front", "str.back", "str.pop_back", "str.push_back", "sv.front", "sv.back", "span.front", "span.back",
-            "opt.deref", "exp.deref", "exp.error"} |-> 0]
+            "opt.deref", "exp.deref", "exp.error",
+            "opt.deref_c", "opt.deref_rv", "opt.deref_crv", "exp.deref_c", "exp.deref_rv", "exp.deref_crv",
+            "exp.error_c", "exp.error_rv", "exp.error_crv"} |-> 0]
     @@ [s \in {"str.index", "str.cindex", "str.ctor_fill", "str.ctor_ptr_len", "str.assign_fill", "str.assign_ptr_len",
                "str.assign_cstr", "str.erase_index", "str.insert_index",
                "sv.index", "sv.remove_prefix", "sv.remove_suffix", "sv.substr",
@@ -38,8 +40,9 @@ Family(site) ==
       [] site \in {"sv.front", "sv.back", "sv.index", "sv.remove_prefix", "sv.remove_suffix", "sv.substr", "sv.copy"} -> "sv"
       [] site \in {"span.front", "span.back", "span.index", "span.first", "span.last", "span.subspan"} -> "span"
       [] site \in {"arr.index", "arr.cindex"} -> "arr"
-      [] site \in {"opt.deref"} -> "opt"
-      [] site \in {"exp.deref", "exp.error"} -> "exp"
+      [] site \in {"opt.deref", "opt.deref_c", "opt.deref_rv", "opt.deref_crv"} -> "opt"
+      [] site \in {"exp.deref", "exp.error", "exp.deref_c", "exp.deref_rv", "exp.deref_crv",
+                   "exp.error_c", "exp.error_rv", "exp.error_crv"} -> "exp"
       [] site \in {"var.unchecked_get", "var.subscript"} -> "var"
       [] site \in {"bs.test", "bs.set", "bs.reset", "bs.flip", "bs.cindex", "bs.index"} -> "bs"
       [] site \in {"bbs.cindex", "bbs.index", "bbs.unchecked_test", "bbs.unchecked_set", "bbs.unchecked_reset", "bbs.unchecked_flip"} -> "bbs"
@@ -65,8 +68,10 @@ CPre(site, cap, n, a, b) ==
       [] site \in {"arr.index", "arr.cindex", "bs.test", "bs.set", "bs.reset", "bs.flip", "bs.cindex", "bs.index",
                    "bbs.cindex", "bbs.index", "bbs.unchecked_test", "bbs.unchecked_set", "bbs.unchecked_reset",
                    "bbs.unchecked_flip", "bit.set_bit", "bit.set_bit_val", "bit.reset_bit", "bit.flip_bit", "bit.test_bit"} -> a < cap
-      [] site \in {"opt.deref", "exp.deref"} -> n = 1
-      [] site = "exp.error" -> n = 0
+      \* every ref-qualified overload (&, const&, &&, const&&) carries the same precondition
+      [] site \in {"opt.deref", "opt.deref_c", "opt.deref_rv", "opt.deref_crv",
+                   "exp.deref", "exp.deref_c", "exp.deref_rv", "exp.deref_crv"} -> n = 1
+      [] site \in {"exp.error", "exp.error_c", "exp.error_rv", "exp.error_crv"} -> n = 0
       [] site \in {"var.unchecked_get", "var.subscript"} -> a = n
       [] site = "num.div_sat" -> a # 0
       [] site \in {"chrono.day", "chrono.month"} -> a < 255
